@@ -177,10 +177,10 @@ func (x *ix64) compare(par int, op string, lo, hi *big.Int, cols []uint64, all, 
 	} else {
 		r = x.b.CompareValue(par, roaring64.Operation(opCode[op]), lo.Int64(), hi.Int64(), f)
 	}
-	return r.ToArray()
+	return take64(r)
 }
 func (x *ix64) compareBSI(op string, o index, cols []uint64, all bool) ([]uint64, bool) {
-	return x.b.CompareBSI(roaring64.Operation(opCode[op]), o.(*ix64).b, fs64(x, cols, all, false)).ToArray(), true
+	return take64(x.b.CompareBSI(roaring64.Operation(opCode[op]), o.(*ix64).b, fs64(x, cols, all, false))), true
 }
 func (x *ix64) batchEqual(par int, vals []*big.Int) []uint64 {
 	allInt := true
@@ -188,13 +188,13 @@ func (x *ix64) batchEqual(par int, vals []*big.Int) []uint64 {
 		allInt = allInt && v.IsInt64()
 	}
 	if x.big || !allInt {
-		return x.b.BatchEqualBig(par, vals).ToArray()
+		return take64(x.b.BatchEqualBig(par, vals))
 	}
 	iv := make([]int64, len(vals))
 	for i, v := range vals {
 		iv[i] = v.Int64()
 	}
-	return x.b.BatchEqual(par, iv).ToArray()
+	return take64(x.b.BatchEqual(par, iv))
 }
 func (x *ix64) batchEqualValues(par int, vals []*big.Int, cols []uint64, all bool) ([][2]*big.Int, bool) {
 	iv := make([]int64, len(vals))
@@ -231,9 +231,9 @@ func (x *ix64) sum(cols []uint64, all bool) (*big.Int, uint64) {
 }
 func (x *ix64) transpose(par int, cols []uint64, all bool) []uint64 {
 	if all {
-		return x.b.Transpose().ToArray()
+		return take64(x.b.Transpose())
 	}
-	return x.b.IntersectAndTranspose(par, bm64of(cols)).ToArray()
+	return take64(x.b.IntersectAndTranspose(par, bm64of(cols)))
 }
 func (x *ix64) transposeCounts(par int, cols []uint64, all bool, fvals []uint64) [][2]uint64 {
 	// explicit filter set (every value currently stored and a few more): a nil filter defaults to the
@@ -285,6 +285,21 @@ func (x *ix64) streamRT() (index, error, bool) {
 func (x *ix64) equals(o index) bool { return x.b.Equals(o.(*ix64).b) }
 func (x *ix64) runOptimize()        { x.b.RunOptimize() }
 func (x *ix64) mutateResultProbe()  {}
+
+// take64 / take32 read a bitmap returned by a query and then SCRIBBLE on it, as a caller is entitled to: if the
+// library handed out one of the index's own bitmaps, the next observation of the stored map shows the damage.
+func take64(r *roaring64.Bitmap) []uint64 {
+	out := r.ToArray()
+	r.Clear()
+	r.Add(424242)
+	return out
+}
+func take32(r *roaring.Bitmap) []uint64 {
+	out := arr64(r.ToArray())
+	r.Clear()
+	r.Add(424242)
+	return out
+}
 
 // ---------------------------------------------------------------- 32-bit implementation
 type ix32 struct{ b *bsi32.BSI }
@@ -342,7 +357,7 @@ func (x *ix32) planesOK() bool {
 	return true
 }
 func (x *ix32) compare(par int, op string, lo, hi *big.Int, cols []uint64, all, own bool) []uint64 {
-	return arr64(x.b.CompareValue(par, bsi32.Operation(opCode[op]), lo.Int64(), hi.Int64(), fs32(x, cols, all, own)).ToArray())
+	return take32(x.b.CompareValue(par, bsi32.Operation(opCode[op]), lo.Int64(), hi.Int64(), fs32(x, cols, all, own)))
 }
 func (x *ix32) compareBSI(op string, o index, cols []uint64, all bool) ([]uint64, bool) { return nil, false }
 func (x *ix32) batchEqual(par int, vals []*big.Int) []uint64 {
@@ -350,7 +365,7 @@ func (x *ix32) batchEqual(par int, vals []*big.Int) []uint64 {
 	for i, v := range vals {
 		iv[i] = v.Int64()
 	}
-	return arr64(x.b.BatchEqual(par, iv).ToArray())
+	return take32(x.b.BatchEqual(par, iv))
 }
 func (x *ix32) batchEqualValues(par int, vals []*big.Int, cols []uint64, all bool) ([][2]*big.Int, bool) {
 	return nil, false
@@ -364,9 +379,9 @@ func (x *ix32) sum(cols []uint64, all bool) (*big.Int, uint64) {
 }
 func (x *ix32) transpose(par int, cols []uint64, all bool) []uint64 {
 	if all {
-		return arr64(x.b.Transpose().ToArray())
+		return take32(x.b.Transpose())
 	}
-	return arr64(x.b.IntersectAndTranspose(par, bm32of(cols)).ToArray())
+	return take32(x.b.IntersectAndTranspose(par, bm32of(cols)))
 }
 func (x *ix32) transposeCounts(par int, cols []uint64, all bool, fvals []uint64) [][2]uint64 {
 	r := x.b.TransposeWithCounts(par, fs32(x, cols, all, false))
